@@ -780,14 +780,15 @@ type c04Ev struct {
 }
 
 type c04Plan struct {
-	hooks    []c04Hook
-	boInit   time.Duration
-	boStep   time.Duration
-	realBo   bool
-	outcome  func(taskID int, failuresSoFar int) string // "ok" | "exit" | "metrics" | "patch" | …
-	arrivals func(qn int, step int) []c04Ev             // events fired while a run is blocked
-	initial  map[int][]c04Ev                            // per queue: first layout (the rest arrives while the first run is blocked)
-	maxSteps int
+	hooks      []c04Hook
+	boInit     time.Duration
+	boStep     time.Duration
+	realBo     bool
+	outcome    func(taskID int, failuresSoFar int) string // "ok" | "exit" | "metrics" | "patch" | …
+	arrivals   func(qn int, step int) []c04Ev             // events fired while a run is blocked
+	boArrivals func(qn int, step int) []c04Ev             // events fired right after a failed run, i.e. during its back-off
+	initial    map[int][]c04Ev                            // per queue: first layout (the rest arrives while the first run is blocked)
+	maxSteps   int
 }
 
 func (w *c04World) fire(p c04Plan, e c04Ev) bool {
@@ -845,8 +846,18 @@ func c04Execute(c *Case, r *Run, p c04Plan) {
 					}
 				}
 			}
-			if finish(qn) == "hang" {
+			st := finish(qn)
+			if st == "hang" {
 				return false
+			}
+			if st == "fail" && withArrivals && p.boArrivals != nil {
+				// a task appended while the queue is sleeping in its back-off must not shorten it
+				for _, e := range p.boArrivals(qn, step) {
+					if !w.fire(p, e) {
+						return false
+					}
+					c.Note("arrival:during-backoff")
+				}
 			}
 		}
 		return true
@@ -987,6 +998,14 @@ func c04Random(c *Case, rng *Rng, r *Run) {
 			return nil
 		}
 		arrivals++
+		return []c04Ev{PickOne(rng, byQueue[qn])}
+	}
+	boArr := 0
+	p.boArrivals = func(qn, step int) []c04Ev {
+		if boArr >= 3 || !rng.Chance(40) || len(byQueue[qn]) == 0 {
+			return nil
+		}
+		boArr++
 		return []c04Ev{PickOne(rng, byQueue[qn])}
 	}
 	nb := 0
